@@ -68,4 +68,8 @@ theorem fixed_pool_example :
 theorem text_JWKCache_GetJWKS_ok : Oidc.Shapes.Text_JWKCache_GetJWKS := by unfold Oidc.Shapes.Text_JWKCache_GetJWKS; rfl
 theorem text_JWKCache_Cleanup_ok : Oidc.Shapes.Text_JWKCache_Cleanup := by unfold Oidc.Shapes.Text_JWKCache_Cleanup; rfl
 
+/-! further obligations against the regenerated program text (`Oidc/Shapes.lean`): constructor wiring and URL builders -/
+theorem text_TraefikOidc_buildURLWithParams_ok : Oidc.Shapes.Text_TraefikOidc_buildURLWithParams := by unfold Oidc.Shapes.Text_TraefikOidc_buildURLWithParams; rfl
+theorem text_New_ok : Oidc.Shapes.Text_New := by unfold Oidc.Shapes.Text_New; rfl
+
 end Oidc.Props.C05
